@@ -141,6 +141,7 @@ func (a Liar) IsZero() bool       { return a.N == 1 }
 func (a Liar) String() string     { return "liar" }
 func (a Liar) GoString() string   { return "liar" }
 func (a Liar) Hash() uint64       { return 7 }
+func (a Liar) Clone() Liar        { return Liar{a.N + 1000} }
 
 func Liars() *U[Liar] {
 	return &U[Liar]{Name: "struct whose Equal/Compare/Less/IsZero/String methods disagree with ==", Keys: [][]Liar{{{0}}, {{1}}, {{2}}}}
